@@ -256,6 +256,19 @@ Definition lex_quoted (s : bytes) : option (bytes * bytes) :=
 
 (* ---- the two main states ---- *)
 
+(* the rest of a message name: up to a Unicode space, "//" or the end *)
+Fixpoint scan_name (fuel : nat) (t : bytes) : bytes :=
+  match fuel with
+  | O => []
+  | S g =>
+    match t with
+    | [] => []
+    | _ => if starts_with slashes t then []
+           else let '(rn, w) := decode_rune t in
+                if is_space_rune rn then [] else firstn w t ++ scan_name g (skipn w t)
+    end
+  end.
+
 Inductive lstate := LHeader | LText.
 
 Definition zlen (s : bytes) : Z := Z.of_nat (length s).
@@ -293,18 +306,7 @@ Fixpoint lex_from (fuel : nat) (st : lstate) (s : bytes) (off : Z) : list token 
             if is_space_rune r0 then skip w0
             else
               (* a message name: up to a Unicode space, "//" or the end *)
-              let name :=
-                  (fix go (fuel : nat) (t : bytes) : bytes :=
-                     match fuel with
-                     | O => []
-                     | S g =>
-                       match t with
-                       | [] => []
-                       | _ => if starts_with slashes t then []
-                              else let '(rn, w) := decode_rune t in
-                                   if is_space_rune rn then [] else firstn w t ++ go g (skipn w t)
-                       end
-                     end) (length s) (skipn w0 s) in
+              let name := scan_name (length s) (skipn w0 s) in
               let full := firstn w0 s ++ name in
               mk TMsgName full off :: lex_from f LHeader (skipn (length full) s) (off + zlen full)
         end
